@@ -290,3 +290,28 @@ Definition sweep_dedup_model (k kf n : nat) : bool :=
   unique_sweep_f (unique_with zeqb) k n
   && unique_values_sweep_f (unique_values_with zeqb) k n
   && rem_dup_sweep_f (rem_dup_with zeqb) k kf n.
+
+(* ------------------------------------------------ mixed signedness at 64 bits (round 2b)
+   uint64 against a signed integer kind: the model is match_z true (np.searchsorted compares
+   binary64 roundings); the property checker is the full statement, so a pair on which matches
+   are lost gets verdict 2 (agree, checker rejects) = the known class when
+   kf_mixed_sign_above_2p53 holds. *)
+Definition vm_matchx (presorted multi : bool) (a1 a2 : list Z) (out : result (list nat * list nat)) : Z :=
+  let model := if multi then match_multi_z true false presorted a1 a2 else match_z true false presorted a1 a2 in
+  if presorted && negb multi && negb (sorted_b zltb a1) then 0%Z
+  else
+    verdict (result_eqb out2_eqb model out)
+            (match a1, a2 with
+             | [], _ | _, [] => true
+             | _, _ =>
+                 if nodupb zeqb a1
+                 then match out with
+                      | Ok o => match_check zeqb a1 a2 o && groups_check zeqb a1 a2 o
+                      | Err _ => false
+                      end
+                 else negb (is_ok out)
+             end).
+Definition show_match_mixed (presorted multi : bool) (a1 a2 : list Z) :=
+  (kf_mixed_sign_above_2p53 true a1 a2, if multi then match_multi_z true false presorted a1 a2 else match_z true false presorted a1 a2).
+(* contract monitor of round53 against the platform's integer -> binary64 conversion *)
+Definition round53_agrees (l : list (Z * Z)) : bool := forallb (fun p => (round53 (fst p) =? snd p)%Z) l.
